@@ -69,14 +69,22 @@ impl Scheduler for Explorer {
         let cur = current.map(usize::from);
         let cur_enabled = cur.is_some_and(|c| ids.contains(&c));
         // canonical order: the running task first if it can continue and is not yielding, then
-        // ascending ids; a yielding task goes last (leaving it is free)
+        // ascending ids; a yielding task goes last (leaving it is free) and hands over round-robin
         let mut order: Vec<usize> = vec![];
         if let (Some(c), true, false) = (cur, cur_enabled, is_yielding) {
             order.push(c);
         }
-        for i in &ids {
-            if Some(*i) != cur {
-                order.push(*i);
+        if let (Some(c), true) = (cur, is_yielding) {
+            // fairness: a yielding task hands over round-robin (next id after it, cyclically). With
+            // "lowest id first" two spinning tasks with low ids would pass control back and forth
+            // for ever and starve the lock holder with the higher id (an artifact, not a livelock)
+            order.extend(ids.iter().filter(|i| **i > c));
+            order.extend(ids.iter().filter(|i| **i < c));
+        } else {
+            for i in &ids {
+                if Some(*i) != cur {
+                    order.push(*i);
+                }
             }
         }
         if let (Some(c), true, true) = (cur, cur_enabled, is_yielding) {
@@ -170,6 +178,9 @@ pub struct Stats {
     pub samples: Vec<(Vec<(u32, u8)>, String)>,
 }
 
+/// a harness stops once it has this many findings
+pub const MAX_FINDINGS: usize = 40;
+
 pub struct Finding {
     pub schedule: Vec<(u32, u8)>,
     pub status: String,
@@ -215,6 +226,20 @@ pub fn explore(
                 continue;
             }
             break;
+        }
+        // enough findings to report: stop this harness (a finding is a verdict; thousands of them only cost memory)
+        if findings.len() >= MAX_FINDINGS {
+            for r in running.drain(..) {
+                unsafe {
+                    libc::kill(r.pid, libc::SIGKILL);
+                    let mut st = 0;
+                    libc::waitpid(r.pid, &mut st, 0);
+                    libc::close(r.fd);
+                }
+            }
+            stats.capped = true;
+            stats.pending_at_cap = queues.iter().map(|q| q.len() as u64).sum();
+            return stats;
         }
         // wait for one child
         let (r, end) = wait_one(&mut running);
